@@ -69,6 +69,9 @@ def run(b, ps, tier, seed):
                 hyp["bad"] += int(f["bad"])
                 if int(f["bad"]) > 0:
                     hyp_fail.append((i, m, sd, int(f["bad"]), t))
+    # how many of the tested programs are in the syntactic class for which C03 is proved outright
+    fjres = S.run_tool(b.model, "fjclass", cases, timeout=600)
+    fj_in = sorted(i for i, _ in d.programs if fjres.get(i, "") == "FJ-IN")
     if hyp_fail and not violations:
         i, m, sd, nbad, t = hyp_fail[0]
         violations.append(C.Violation("the independence hypothesis of the determinism theorem fails on a reachable configuration of accepted program %s (mode %s, model schedule %d: %d pairs)" % (i, m, sd, nbad),
@@ -83,7 +86,9 @@ def run(b, ps, tier, seed):
                          "model_schedules_per_mode": len(next(iter(d.model.values()))["async"]) if d.model else 0,
                          "hypothesis_check": {"what": "I_compat and I_err of determinism_partial (any two distinct enabled choices independent; errors stable) evaluated by the extracted, proved-sound check on every ordered pair of enabled choices at every configuration visited by the model, modes async+sync",
                                               "model_runs": hyp["runs"], "configurations": hyp["configs"], "pairs_evaluated": hyp["pairs"], "pairs_failing": hyp["bad"],
-                                              "programs_failing": sorted(set(x[0] for x in hyp_fail))[:10]}})
+                                              "programs_failing": sorted(set(x[0] for x in hyp_fail))[:10]},
+                         "unconditional_class": {"what": "tested programs whose initial configuration is in the fork-join class (fj_cfg_b / fj_funs_b, proofs/ForkJoin.v): for these determinism over all schedules is a theorem with no hypothesis left",
+                                                 "programs_in_class": len(fj_in), "of": len(d.programs), "ids": fj_in[:12]}})
     return {"violations": violations, "known": [], "coverage": cov, "assumptions": P.COMMON_ASSUMPTIONS, "trusted_extra": P.COMMON_TRUSTED}
 
 
